@@ -237,8 +237,9 @@ func evalC19(test string) func(c *peCase) evalResult {
 			v.Err, v.Key = fmt.Errorf(format+"\nfault: %+v (%s)\n%s", append(a, f, why, describe(res))...), key
 			return evalResult{V: v}
 		}
-		if res.AMF.Violation != nil {
+		if res.AMF.Violation != nil && !res.FaultDone {
 			// the conversation itself broke before/without the fault: not a statement about fail-stop
+			// (a complaint of the AMF about something the emulator sent AFTER the fault is judged below: it went on)
 			v.Skip = true
 			v.Classes = append(v.Classes, "conversation-broken:"+res.AMF.Violation.Key)
 			return evalResult{V: v}
@@ -297,7 +298,7 @@ func evalC19(test string) func(c *peCase) evalResult {
 	}
 }
 
-var garbageFamilies = []string{"prefix", "choice3", "length", "oversize2048", "oversize4096", "otherproc", "otherproc"}
+var garbageFamilies = []string{"prefix", "choice3", "length", "oversize2048", "oversize4096", "otherproc", "otherproc", "stale-prefix", "stale-prefix", "failure-truncated", "failure-truncated"}
 
 // enumerateFaults runs the scenario fault-free and returns one case per (index, kind).
 func enumerateFaults(t *testing.T, r *ev.Rec, test string, base *peCase, seed int) []*peCase {
@@ -340,6 +341,14 @@ func enumerateFaults(t *testing.T, r *ev.Rec, test string, base *peCase, seed in
 				// followed by a length that claims more than the datagram holds
 				f.PrefixLen = rapid.IntRange(0, 51).Draw(rt, fmt.Sprintf("otherproc%d", j))
 			}
+			if fam == "failure-truncated" {
+				f.PrefixLen = rapid.SampledFrom([]int{3, 4, 7, 12, 13}).Draw(rt, fmt.Sprintf("failcut%d", j))
+			}
+			if fam == "stale-prefix" {
+				// the first 1..3 octets of the PREVIOUS downlink message: what arrives agrees with what a reused receive
+				// buffer still holds from the message before, and is far too short to be an NGAP PDU
+				f.PrefixLen = rapid.IntRange(1, 3).Draw(rt, fmt.Sprintf("stale%d", j))
+			}
 			if fam == "prefix" {
 				switch rapid.IntRange(0, 3).Draw(rt, fmt.Sprintf("plen_kind%d", j)) {
 				case 0:
@@ -363,6 +372,21 @@ func enumerateFaults(t *testing.T, r *ev.Rec, test string, base *peCase, seed in
 	for _, f := range draw {
 		c := *base
 		c.Sc.Fault = f
+		cases = append(cases, &c)
+	}
+	// the answer to the NG SETUP REQUEST is replaced by every family in turn (these runs end at once, they cost nothing);
+	// the cut of the truncated NG SETUP FAILURE varies with the scenario
+	seen := map[string]bool{}
+	for i, fam := range garbageFamilies {
+		if seen[fam] || len(dlLens) == 0 || (len(draw) > 0 && draw[0].Garbage == fam) {
+			continue
+		}
+		seen[fam] = true
+		c := *base
+		c.Sc.Fault = refamf.Fault{Kind: "garbage", Index: 0, Garbage: fam, PrefixLen: []int{3, 4, 7, 12, 13, 1, 2}[(seed+i)%7]}
+		if fam == "otherproc" {
+			c.Sc.Fault.PrefixLen = (seed*7 + i) % 52
+		}
 		cases = append(cases, &c)
 	}
 	for j := range dlLens {
